@@ -233,6 +233,7 @@ class Impl:
         self.listing = sorted(os.listdir(self.datadir))
         # files on disk
         self.files = {}
+        self.sizes = {}
         self.file_comp = {}
         self.metas = []
         for fn in self.listing:
@@ -244,6 +245,7 @@ class Impl:
             tail = fn[len(self.prefix) + 1:]
             if fn.startswith(self.prefix + "-") and tail.isdigit():
                 self.files[int(tail)] = None
+                self.sizes[int(tail)] = os.path.getsize(os.path.join(self.datadir, fn))
                 self.file_comp[int(tail)] = case["comp"]
                 tries = [case["comp"]] + ([case["tamper"][2]] if case["tamper"][0] == 4 else [])
                 for ci_ in tries:
@@ -256,7 +258,6 @@ class Impl:
                         pass
             else:
                 self.notes.append("stray file " + fn)
-        self.sizes = {k: os.path.getsize(os.path.join(self.datadir, "%s-%06d" % (self.prefix, k))) for k in self.files}
         # load
         self.loaded = None
         try:
@@ -276,7 +277,13 @@ class Impl:
             return
         with open(self.mdpath) as f:
             md = json.load(f)
-        fname = lambda k: os.path.join(self.datadir, "%s-%06d" % (self.prefix, k))  # noqa
+        def fname(k):
+            # the chunk file with number k, whatever zero padding the saver uses
+            for fn in os.listdir(self.datadir):
+                tail = fn[len(self.prefix) + 1:]
+                if fn.startswith(self.prefix + "-") and tail.isdigit() and int(tail) == k:
+                    return os.path.join(self.datadir, fn)
+            return os.path.join(self.datadir, "%s-%06d" % (self.prefix, k))
         wr = False
         if top == 1:
             if ta < len(md["chunks"]):
